@@ -124,6 +124,11 @@ Definition match_pattern_list (O : oracle) (pl : list pitem) (lib : bytes) (so :
   fold_left (fun ret p => if item_hits O lib so name p then (if pi_pos p then 1 else -1)%Z else ret)
             pl 0%Z.
 
+(* match_pattern_module (mcount_dynamic_dlopen): a dlopen()ed library is looked at only if some
+   pattern's module is a prefix of its file name or soname *)
+Definition match_pattern_module (pl : list pitem) (path : bytes) (so : option bytes) : bool :=
+  existsb (fun p => mod_applies path so (pi_mod p)) pl.
+
 (* the command line: -P x  appends "x", -U x appends "!x", joined by ';' (uftrace.c) *)
 Inductive cliopt := OptP (arg : bytes) | OptU (arg : bytes).
 Definition render_opt (o : cliopt) : bytes :=
@@ -492,6 +497,22 @@ Fixpoint apply_changes (m : mem) (chs : list (N * bytes)) (a : N) : N :=
 Definition expect (O : oracle) (c : cfg) (m : mem) (vis : list sym) : mem :=
   apply_changes m (changes O c m vis).
 
+(* the layout hypothesis of the exactness theorem, as a decision procedure (used by the tie to count
+   how many generated cases lie inside the theorem's domain) *)
+Definition has_endbr (m : mem) (s : sym) : bool := bytes_eqb (rd m (s_addr s) 4) endbr64.
+Definition in_sym (s : sym) (a : N) : bool := in_span (s_addr s) (s_size s) a.
+Definition ranges_overlap (s t : sym) : bool :=
+  (s_addr s <? s_addr t + s_size t) && (s_addr t <? s_addr s + s_size s).
+Fixpoint ranges_disjointb (vis : list sym) : bool :=
+  match vis with
+  | [] => true
+  | s :: r => forallb (fun t => negb (ranges_overlap s t)) r && ranges_disjointb r
+  end.
+Definition layout_okb (O : oracle) (c : cfg) (m : mem) (vis : list sym) : bool :=
+  ranges_disjointb vis
+  && forallb (fun s => (negb (has_endbr m s) || (9 <=? s_size s))
+                       && (negb (spec_decision O c s =? -1)%Z || (6 <=? s_size s))) vis.
+
 (* executable property checker for an observed update: before/after byte windows at [base, base+len) *)
 Definition mem_of (base : N) (l : bytes) : mem :=
   fun a => if base <=? a then nth (N.to_nat (a - base)) l 0 else 0.
@@ -540,7 +561,8 @@ Record pcase := {
   p_cli : option (list cliopt);            (* the -P/-U options the string was rendered from *)
   p_regok : list (bytes * bool); p_tbl : list (bytes * bytes * bool);
   p_items : list pitem;                    (* the implementation's parsed list *)
-  p_queries : list query
+  p_queries : list query;
+  p_mods : list (bytes * option bytes * bool)   (* path, get_soname(path), match_pattern_module(path) *)
 }.
 Definition p_oracle (c : pcase) : oracle := mk_oracle (p_regok c) (p_tbl c).
 
@@ -550,7 +572,8 @@ Definition p_agrees (c : pcase) : bool :=
   list_eqb pitem_eqb pl (p_items c)
   && forallb (fun q => (match_pattern_list O pl (q_lib q) (q_so q) (q_name q) =? q_ret q)%Z
                        && list_eqb Bool.eqb (map (fun p => matches O (pi_patt p) (q_name q)) pl) (q_bits q))
-             (p_queries c).
+             (p_queries c)
+  && forallb (fun x => let '(path, so, r) := x in Bool.eqb (match_pattern_module pl path so) r) (p_mods c).
 
 (* the property on the implementation's own outputs: its verdict is the polarity of the last of
    ITS items whose module applies and whose pattern (ITS match result) matches; and for a list that
@@ -573,7 +596,10 @@ Definition p_ok (c : pcase) : bool :=
   && match p_cli c with
      | Some opts => list_eqb (fun o p => cli_item_ok (p_defmod c) o p) opts (p_items c)
      | None => true
-     end.
+     end
+  (* a library is skipped exactly when no item's module applies to it *)
+  && forallb (fun x => let '(path, so, r) := x in
+                       Bool.eqb (existsb (fun p => mod_applies path so (pi_mod p)) (p_items c)) r) (p_mods c).
 
 Definition dyntype_of (n : N) : dyntype :=
   match n with 1 => DPg | 2 => DFentry | 3 => DFentryNop | 4 => DXray | 5 => DPatchable | _ => DNone end.
@@ -637,6 +663,11 @@ Definition u_agrees (fixed : bool) (u : ucase) : bool :=
       && u_pages_agree u pm1 d1
   end.
 
+(* is the case inside the domain of C14_update_exact_layout ? *)
+Definition u_layout (u : ucase) : bool :=
+  let c := u_cfg u (i_tramp u) in
+  layout_okb (u_oracle u) c (mem_of (u_wbase u) (u_before u)) (visited c (u_syms u) (u_targets u)).
+
 (* the property on the implementation's outputs *)
 (* a module whose trampoline cannot be set up (the page behind the text is needed and occupied) cannot be
    patched: it must be left byte-for-byte untouched, its page permissions unchanged, the process running *)
@@ -665,21 +696,92 @@ Definition u_ok (u : ucase) : bool :=
   | Some _ => u_ok_patchable u
   end.
 
+(* ------------------------------------------------------------------ which patch method a module gets *)
+(* mcount_arch_find_module: a __patchable_function_entries / xray_instr_map section decides; else the
+   first ordinary function (LOCAL/GLOBAL, name not starting with '_') that begins with one of the four
+   NOP forms makes the module DYNAMIC_FENTRY_NOP; else check_trace_functions (mcount -> PG,
+   __fentry__ -> FENTRY, nothing -> NONE).
+   [fixed = false]: the code as found probes the very first bytes of the function;
+   [fixed = true]: it skips an endbr64 first, as patch_fentry_code does. *)
+Inductive elf_sect := SectNone | SectPatchable | SectXray.
+Definition probe_sym (fixed : bool) (m : mem) (s : sym) : bool :=
+  ((s_type s =? ST_LOCAL_FUNC) || (s_type s =? ST_GLOBAL_FUNC))
+  && negb (match s_name s with c :: _ => c =? 95 | [] => false end)
+  && is_nop_sig (rd m (if fixed then entry_of m (s_addr s) else s_addr s) 5).
+Definition find_module_type (fixed : bool) (sect : elf_sect) (chk : dyntype) (m : mem) (syms : list sym) : dyntype :=
+  match sect with
+  | SectPatchable => DPatchable
+  | SectXray => DXray
+  | SectNone => if existsb (probe_sym fixed m) syms then DFentryNop else chk
+  end.
+(* check_trace_functions' answer as a module type *)
+Definition chk_type (n : Z) : dyntype := match n with 1%Z => DPg | 3%Z => DFentry | _ => DNone end.
+
+Record fcase := {
+  f_chk : Z; f_wbase : N; f_window : bytes; f_syms : list sym;
+  i_type : N                              (* mdi->type the implementation chose *)
+}.
+Definition dyntype_eqb (a b : dyntype) : bool :=
+  match a, b with
+  | DNone, DNone | DPg, DPg | DFentry, DFentry | DFentryNop, DFentryNop | DXray, DXray | DPatchable, DPatchable => true
+  | _, _ => false
+  end.
+Definition f_agrees (fixed : bool) (f : fcase) : bool :=
+  dyntype_eqb (find_module_type fixed SectNone (chk_type (f_chk f)) (mem_of (f_wbase f) (f_window f)) (f_syms f))
+              (dyntype_of (i_type f)).
+(* the property: if some ordinary function of the module can be patched by patch_fentry_code (NOP form
+   at its post-endbr64 entry) the module must get a type that patches *)
+Definition f_ok (f : fcase) : bool :=
+  let m := mem_of (f_wbase f) (f_window f) in
+  if existsb (probe_sym true m) (f_syms f)
+  then match dyntype_of (i_type f) with DFentryNop | DPatchable => true | _ => false end
+  else true.
+
+(* ------------------------------------------------------------------ -Z SIZE on the command line *)
+(* uftrace.c (case 'Z'): strtol(arg, NULL, 0) -> opts->size_filter (int);  cmds/record.c: if non-zero,
+   snprintf("%d") -> UFTRACE_MIN_SIZE;  libmcount/dynamic.c: min_size (unsigned) = strtoul(env).
+   [v] is the number the user wrote.  [fixed = false]: the code as found (long assigned to int);
+   [fixed = true]: after "fix: size filter: do not wrap around" (clamped to INT_MAX). *)
+Local Open Scope Z_scope.
+Definition LONG_MAX : Z := 9223372036854775807.
+Definition INT_MAX : Z := 2147483647.
+Definition strtol_val (v : Z) : Z := Z.max (- LONG_MAX - 1) (Z.min v LONG_MAX).
+Definition to_int32 (v : Z) : Z :=
+  let w := v mod 4294967296 in if w <? 2147483648 then w else w - 4294967296.
+Definition cli_size_filter (fixed : bool) (v : Z) : Z :=
+  let l := strtol_val v in
+  if fixed then (if l <=? 0 then 0 else if INT_MAX <? l then INT_MAX else l)
+  else (let i := to_int32 l in if i <=? 0 then 0 else i).
+Definition env_min_size (sf : Z) : option Z := if sf =? 0 then None else Some sf.
+Definition libmcount_min_size (e : option Z) : N :=
+  match e with None => 0%N | Some t => Z.to_N (t mod 4294967296) end.
+Definition cli_min_size (fixed : bool) (v : Z) : N :=
+  libmcount_min_size (env_min_size (cli_size_filter fixed v)).
+(* what the user asked for: functions smaller than v are not to be patched (v <= 0: no filter) *)
+Definition requested_min (v : Z) : N := if v <=? 0 then 0%N else Z.to_N v.
+Local Close Scope Z_scope.
+
 (* ------------------------------------------------------------------ end-to-end cases *)
 Record ecase := {
   e_ptype : ptype; e_funcs : bytes; e_defmod : bytes;
   e_regok : list (bytes * bool); e_tbl : list (bytes * bytes * bool);
-  e_ty : N; e_min : N; e_lib : bytes;
+  e_sect : elf_sect; e_chk : Z; e_zarg : Z; e_lib : bytes;
   e_text_addr : Z; e_text_size : Z; e_next_mapped : bool;
   e_wbase : N; e_before : bytes; e_syms : list sym; e_targets : list N;
   (* observed on the real uftrace record run *)
   o_died : bool; o_after : bytes; o_traced : list bytes; o_same_output : bool; o_rc_same : bool;
-  o_wx : N; o_tramp_perm : perm
+  o_wx : N; o_tramp_perm : perm; o_env : option Z       (* UFTRACE_MIN_SIZE as the tracee saw it *)
 }.
 Definition e_oracle (e : ecase) : oracle := mk_oracle (e_regok e) (e_tbl e).
-Definition e_cfg (e : ecase) (tramp : Z) : cfg :=
+(* the module type: mcount_arch_find_module (repaired probe) on the ELF's sections, the native code
+   window and the symbols in it *)
+Definition e_type (e : ecase) : dyntype :=
+  find_module_type true (e_sect e) (chk_type (e_chk e)) (mem_of (e_wbase e) (e_before e)) (e_syms e).
+Definition e_cfg (e : ecase) (tramp : Z) (mn : N) : cfg :=
   {| c_pats := parse_pattern_list (e_oracle e) (e_funcs e) (e_defmod e) (e_ptype e);
-     c_lib := e_lib e; c_so := None; c_ty := dyntype_of (e_ty e); c_tramp := tramp; c_min := e_min e |}.
+     c_lib := e_lib e; c_so := None; c_ty := e_type e; c_tramp := tramp; c_min := mn |}.
+Definition optZ_eqb (a b : option Z) : bool :=
+  match a, b with None, None => true | Some x, Some y => (x =? y)%Z | _, _ => false end.
 Definition e_pm (e : ecase) : pmap :=
   fun pg => if in_range (e_text_addr e) (e_text_size e) pg then P_RX
             else if e_next_mapped e && (pg =? page_of (align_up (e_text_addr e + e_text_size e)))%Z then P_R
@@ -689,11 +791,11 @@ Definition names_eq (a b : list bytes) : bool := names_subset a b && names_subse
 
 Definition e_model (fixed : bool) (e : ecase) : option (bytes * list bytes) :=
   match setup_trampoline_v fixed (e_pm e)
-          {| d_text_addr := e_text_addr e; d_text_size := e_text_size e; d_tramp := 0; d_ty := dyntype_of (e_ty e) |} with
+          {| d_text_addr := e_text_addr e; d_text_size := e_text_size e; d_tramp := 0; d_ty := e_type e |} with
   | SetupFatal => None
   | SetupFail => Some (e_before e, [])
   | SetupOk _ d1 =>
-      let c := e_cfg e (d_tramp d1) in
+      let c := e_cfg e (d_tramp d1) (cli_min_size true (e_zarg e)) in
       let m0 := mem_of (e_wbase e) (e_before e) in
       let m := fst (patch_func_matched (e_oracle e) c (e_syms e) (e_targets e) (m0, stats0)) in
       Some (window m (e_wbase e) (length (e_before e)),
@@ -705,6 +807,7 @@ Definition e_agrees (fixed : bool) (e : ecase) : bool :=
   match e_model fixed e with
   | None => o_died e
   | Some (w, names) => negb (o_died e) && bytes_eqb w (o_after e) && names_eq names (o_traced e)
+                       && optZ_eqb (env_min_size (cli_size_filter true (e_zarg e))) (o_env e)
   end.
 
 Definition tramp_of (text_addr text_size : Z) : Z :=
@@ -715,7 +818,9 @@ Definition tramp_of (text_addr text_size : Z) : Z :=
    is writable and executable, the trampoline page is r-x, the code bytes changed exactly as the
    specification says, and exactly the selected functions show up in the trace *)
 Definition e_ok_patchable (e : ecase) : bool :=
-  let c := e_cfg e (tramp_of (e_text_addr e) (e_text_size e)) in
+  (* the size filter of the specification is the number the user wrote, not what the option parser
+     made of it *)
+  let c := e_cfg e (tramp_of (e_text_addr e) (e_text_size e)) (requested_min (e_zarg e)) in
   let m0 := mem_of (e_wbase e) (e_before e) in
   let vis := visited c (e_syms e) (e_targets e) in
   negb (o_died e) && o_same_output e && o_rc_same e && (o_wx e =? 0) && perm_eqb (o_tramp_perm e) P_RX
@@ -728,7 +833,7 @@ Definition e_ok_patchable (e : ecase) : bool :=
 
 Definition e_ok (e : ecase) : bool :=
   match setup_trampoline (e_pm e) {| d_text_addr := e_text_addr e; d_text_size := e_text_size e; d_tramp := 0;
-                                     d_ty := dyntype_of (e_ty e) |} with
+                                     d_ty := e_type e |} with
   | None => negb (o_died e) && o_same_output e && o_rc_same e && (o_wx e =? 0)
             && bytes_eqb (e_before e) (o_after e) && names_eq [] (o_traced e)
   | Some _ => e_ok_patchable e
